@@ -8,4 +8,4 @@ Extraction Language OCaml.
 Extraction "model.ml" d_sym_attrs d_symbol_sizes d_sl ss_of_index
   d_gf_mulrow d_gf_divrow d_gf_misc d_generator d_rs_encode d_rs_decode d_spec_gmulrow
   d_place_table d_place_write d_place_read d_bitmap d_bitmap_tag d_from_bits d_from_bits_flip variant_index
-  d_decode_data d_decode_str d_read_eci d_write_eci d_latin1_to_utf8 d_utf8_to_latin1 d_from_utf8 d_to_utf8 d_plan et_index d_encode d_encode_str d_dm_decode d_dm_bitmap d_rt d_dm_decode_flips d_plan_enc d_str_rt d_dm_flip_codewords d_path d_pixels d_unicode d_path_check.
+  d_decode_data d_decode_str d_read_eci d_write_eci d_latin1_to_utf8 d_utf8_to_latin1 d_from_utf8 d_to_utf8 d_plan et_index d_encode d_encode_str d_dm_decode d_dm_bitmap d_rt d_dm_decode_flips d_plan_enc d_str_rt d_dm_flip_codewords d_path d_pixels d_unicode d_path_check d_certify.
